@@ -112,3 +112,20 @@ package stackitem
 
 //@ func NewBool
 //@ inline
+
+// ---- compound items: the reference flag and element removal (used by the C12 contracts of the
+// instructions that move items in and out of collections)
+//@ prop C12
+//@ func (*rc).IsReferenced
+//@ requires r != nil
+//@ ensures result == (r.count != 0)
+//@ func (*ro).IsReadOnly
+//@ inline
+//@ func (*Array).Remove
+//@ may-panic
+//@ requires i != nil
+//@ modifies i.value, elems(Item)
+//@ func (*Struct).Remove
+//@ may-panic
+//@ requires i != nil
+//@ modifies i.value, elems(Item)
